@@ -28,6 +28,10 @@
 //	    h cancelled at the hook dedup.isduplicate.enter (between Deduplicator.IsDuplicate and the repository lock),
 //	    t outlived there (the hook sleeps longer than the 5 ms Timeout).  Decorator: one message per Publish.
 //	ctxc <mw|dec> <hasher> <yield> <g1>;<g2>;…       g = k<mode>.k<mode>… presented by one goroutine; OBS k<i>=<reached>:<dropped>:<errors>,…
+//	volume <via> <w_ms> <nOther> <nProbes>          OBS first=<accepted>/<presented> z=reaccepted probes=<a|d per probe>
+//	    a fresh repository gets nProbes probe keys, nOther other keys and last 8 sentinel keys; the sentinels are polled until one
+//	    is accepted again - which proves that a clean-up with a tick past the sentinel's (hence every probe's) expiry ran -
+//	    and then every probe is presented once more: each must be accepted again (no wall-clock bound involved).
 //	router <n> <nkeys>                             OBS handled=<h> acked=<a>  (a real Router + GoChannel; every message is acked, one handled per key)
 package main
 
@@ -904,6 +908,13 @@ func rigFor(w time.Duration) *timedRig {
 	if r, ok := rigs[w]; ok {
 		return r
 	}
+	r := buildRig(w)
+	rigs[w] = r
+	return r
+}
+
+// buildRig: a fresh repository of window w with the three ways of presenting a key to it
+func buildRig(w time.Duration) *timedRig {
 	repo := newRepo(w)
 	r := &timedRig{w: w, repo: repo, arr: map[string]arrival{}}
 	r.arr["repo"] = func(name string) byte { return repoCall(repo, name) }
@@ -965,7 +976,6 @@ func rigFor(w time.Duration) *timedRig {
 		}
 		return 'E'
 	}
-	rigs[w] = r
 	return r
 }
 
@@ -1235,6 +1245,17 @@ func runReq(req string) (string, string, error) {
 			return req, "", errors.New("ctxc args")
 		}
 		return req, runCtxConc(f[1], k, y, gs, nk), nil
+	case "volume":
+		if len(f) != 5 {
+			return req, "", errors.New("fields")
+		}
+		ms, e1 := strconv.Atoi(f[2])
+		n, e2 := strconv.Atoi(f[3])
+		np, e3 := strconv.Atoi(f[4])
+		if e1 != nil || e2 != nil || e3 != nil || ms < 1 || n < 0 || n > 500000 || np < 1 || np > 1000 || (f[1] != "repo" && f[1] != "mw" && f[1] != "dec") {
+			return req, "", errors.New("volume args")
+		}
+		return req, runVolume(f[1], time.Duration(ms)*time.Millisecond, n, np), nil
 	case "router":
 		if len(f) != 3 {
 			return req, "", errors.New("fields")
